@@ -519,22 +519,48 @@ Section WithSkels.
     cbn. repeat split; auto. { eapply head_stored; eauto. } { intros F. eapply flag_of_true; eauto. }
   Qed.
 
+  Lemma merge_op_safe s r others t nonce : Inv s -> safe_seq s (fst (merge_op_writes sk sched s r others t nonce)).
+  Proof.
+    intros Hi. pose proof Hi as (Hc & Hr & Htu & Hh). unfold merge_op_writes.
+    destruct (head_of r s) as [h|] eqn:E; [|exact I].
+    destruct (others_ok s others) eqn:Eo; [|exact I].
+    destruct (diverged h others) eqn:Ed; cbn [fst].
+    + apply merge_commit_safe. cbn. intros p [<- | Hp].
+      * eapply head_stored; eauto.
+      * apply (others_ok_spec _ _ Eo p Hp).
+    + destruct others as [|o1 [|o2 l]]; try exact I.
+      destruct (others_ok_spec _ _ Eo o1 (or_introl eq_refl)) as [Ho1 Ho2].
+      apply (ff_safe s r h o1); auto.
+  Qed.
+
+  Lemma pull_tail_safe s1 r rr t nonce : Inv s1 -> safe_seq s1 (fst (pull_tail sk sched s1 r rr t nonce)).
+  Proof.
+    intros Hi. pose proof Hi as (Hc & Hr & Htu & Hh). unfold pull_tail.
+    destruct (head_of rr s1) as [c'|] eqn:Err; [|exact I].
+    destruct (head_of r s1) as [h|] eqn:Er.
+    - destruct (cid_eqb c' h); [exact I | apply merge_op_safe; auto].
+    - cbn. repeat split; auto. { eapply head_stored; eauto. } { discriminate. }
+  Qed.
+
+  Lemma pull_safe s r rr objs c force t nonce : Inv s ->
+    safe_seq s (fst (pull_writes sk dv sched s r rr objs c force t nonce)).
+  Proof.
+    intros Hi. unfold pull_writes. pose proof (fetch_safe s objs [(rr, c, force)]) as Hf.
+    destruct (fetch_writes sk dv s objs [(rr, c, force)]) as [wf okf]; cbn [fst] in *.
+    destruct okf; [|exact Hf].
+    pose proof (pull_tail_safe (apply_all wf s) r rr t nonce (safe_seq_end wf s Hi Hf)) as Ht.
+    destruct (pull_tail sk sched (apply_all wf s) r rr t nonce) as [wt okt]; cbn [fst] in *.
+    apply safe_seq_app; auto.
+  Qed.
+
   Theorem op_safe s o : Inv s -> op_ok s o -> safe_seq s (fst (op_writes sk dv sched s o)).
   Proof.
     intros Hi Hok. pose proof Hi as (Hc & Hr & Htu & Hh).
-    destruct o as [r t n | r t n | r | r others t n | r other n | r other | objs upd | ]; cbn [op_writes fst].
+    destruct o as [r t n | r t n | r | r others t n | r other n | r other | objs upd | | r rr objs c force t n]; cbn [op_writes fst].
     - apply commit_safe; auto.
     - apply commit_with_table_safe; auto.
     - cbn. repeat split; auto.
-    - destruct (head_of r s) as [h|] eqn:E; [|exact I].
-      destruct (others_ok s others) eqn:Eo; [|exact I].
-      destruct (diverged h others) eqn:Ed; cbn [fst].
-      + apply merge_commit_safe. cbn. intros p [<- | Hp].
-        * eapply head_stored; eauto.
-        * apply (others_ok_spec _ _ Eo p Hp).
-      + destruct others as [|o1 [|o2 l]]; try exact I.
-        destruct (others_ok_spec _ _ Eo o1 (or_introl eq_refl)) as [Ho1 Ho2].
-        apply (ff_safe s r h o1); auto.
+    - apply merge_op_safe; auto.
     - destruct (head_of r s) as [h|] eqn:E; [|exact I].
       destruct (others_ok s [other]) eqn:Eo; [|exact I].
       destruct (others_ok_spec _ _ Eo other (or_introl eq_refl)) as [Ho1 Ho2].
@@ -550,6 +576,7 @@ Section WithSkels.
       apply (ff_safe s r h other); auto.
     - apply fetch_safe.
     - contradiction.
+    - apply pull_safe; auto.
   Qed.
 
   Theorem op_prefix_consistent s o n :
@@ -774,7 +801,7 @@ Section Rerun.
   Proof.
     intros Hv1 Hv2 Hi Hdiv Hok1 ws1 Hn cs.
     assert (Hinv_cs : Inv cs) by (apply nonprune_prefix_consistent; auto; exact I).
-    unfold run_op, cs, ws1 in *. cbn [op_writes] in *.
+    unfold run_op, cs, ws1 in *. cbn [op_writes] in *. unfold merge_op_writes in *.
     destruct (head_of r s) as [h|] eqn:Eh; [|cbn in Hok1; discriminate].
     destruct (others_ok s others) eqn:Eo; [|cbn in Hok1; discriminate].
     rewrite (Hdiv h eq_refl) in *.
@@ -796,7 +823,7 @@ Section Rerun.
     rewrite (objs_le_others_ok _ _ _ Hle Eo), (Hdiv h eq_refl). cbn [fst snd].
     split; [reflexivity|]. split.
     - pose proof (nonprune_final_inv sched2 _ (OMergeCommit r others t n2) Hv2 Hinv_cs I) as F.
-      unfold run_op in F. cbn [op_writes] in F.
+      unfold run_op in F. cbn [op_writes] in F. unfold merge_op_writes in F.
       rewrite (head_of_refs_eq r _ s Er), Eh, (objs_le_others_ok _ _ _ Hle Eo), (Hdiv h eq_refl) in F. exact F.
     - rewrite (merge_commit_writes_eq sk sched2 Hmerge Hcreate). cbn [c_table].
       set (c2 := Cid t (h :: others) n2).
